@@ -9,7 +9,7 @@ from typing import Any, Callable, Dict, Iterator, List, Optional, Tuple
 from . import REPO
 from .families import (Graph, as_named, canonical, deviation_closure, enum_closed, fig_graphs, loop_exit_family,
                        get_labeling, is_closed, lab_tag, labelings, make_scfg, set_labeling, shards)
-from .kernel import CpuBudget, shard_map
+from .kernel import CpuBudget, default_recursion, shard_map
 from .runner import Acc
 
 STAGES = ("J", "JL", "JLB")
@@ -37,7 +37,7 @@ def staged(g: Graph, payload: str = "basic", rename=None, include_input: bool = 
              ("JLB", lambda: scfg.restructure_branch()))
     for stage, fn in steps:
         try:
-            with CpuBudget(CPU_BUDGET_S):
+            with CpuBudget(CPU_BUDGET_S), default_recursion():
                 fn()
         except CpuBudget.Exceeded as e:
             yield stage, scfg, e
@@ -228,6 +228,11 @@ def graph_spec(tier: str, light: bool = False) -> Dict[str, Any]:
         lists["S3"] = s3 if not light else s3[::8]
     lx = loop_exit_family(3, 3) if tier == "quick" else loop_exit_family(4, 3)
     lists["LX"] = lx if not light else lx[::4]
+    try:
+        from .progs import big_graphs
+        lists["BIG"] = big_graphs(tier)
+    except ImportError:
+        pass
     try:
         if tier == "quick":
             s1 = frontend_graphs(1)
